@@ -217,12 +217,15 @@ class BaseTemplate:
             setattr(self, "_" + name, function)
 
         # Entry points left over from a previously cooked body (macros
-        # that the new body no longer defines) must not be served.
-        for name in list(self.__dict__):
-            if name.startswith('_render') and name[1:] not in functions:
+        # that the new body no longer defines) must not be served.  Only
+        # what a previous call installed is removed - other attributes
+        # may well begin with ``_render``.
+        for name in self.__dict__.get('_v_entry_points', ()):
+            if name not in functions:
                 # (another thread cooking the same body may have removed
                 # it already)
-                self.__dict__.pop(name, None)
+                self.__dict__.pop("_" + name, None)
+        self._v_entry_points = tuple(functions)
 
         self._cooked = True
 
